@@ -81,6 +81,29 @@ MsgEffect(W, nm, r, m, flag, msub) ==
            s == Branch(W, nm, imp.r, m, flag, newly)
        IN [r |-> s.r, ret |-> s.ret, fired |-> imp.fired \cup s.fired, accepted |-> TRUE]
 
+(* process_message(..., forced=True), as "cylc set --out" calls it: no acceptance check, no job bookkeeping; *)
+(* a forced change to submitted / running is refused by TaskState.reset (there is no job), failure is final  *)
+(* whatever retries remain, "submitted" and "submit-failed" only spawn the children of the output.            *)
+ForcedBranch(W, nm, r, m, newly) ==
+  CASE m = "started"       -> [r |-> [r EXCEPT !.sfail = 0], fired |-> {"started"}]
+    [] m = "succeeded"     -> [r |-> [r EXCEPT !.st = "succeeded"], fired |-> {"succeeded"}]
+    [] m = "failed"        -> [r |-> [r EXCEPT !.st = "failed", !.outs = @ \cup {"failed"}], fired |-> {"failed"}]
+    [] m = "expired"       -> [r |-> [r EXCEPT !.st = "expired"], fired |-> {"expired"}]
+    [] m = "submitted"     -> [r |-> r, fired |-> {"submitted"}]
+    [] m = "submit-failed" -> [r |-> r, fired |-> {"submit-failed"}]
+    [] OTHER               -> [r |-> r, fired |-> IF newly /\ m \in W.customs[nm] THEN {m} ELSE {}]
+RECURSIVE ApplyImpliedForced(_, _, _, _, _)
+ApplyImpliedForced(W, nm, acc, ms, k) ==
+  IF k > Len(ms) THEN acc
+  ELSE IF ms[k] \in acc.r.outs THEN ApplyImpliedForced(W, nm, acc, ms, k + 1)
+  ELSE LET s == ForcedBranch(W, nm, Mark(W, nm, acc.r, ms[k]), ms[k], TRUE)
+       IN ApplyImpliedForced(W, nm, [r |-> s.r, fired |-> acc.fired \cup s.fired], ms, k + 1)
+ForcedEffect(W, nm, r, m) ==
+  LET newly == m \notin r.outs
+      imp == ApplyImpliedForced(W, nm, [r |-> Mark(W, nm, r, m), fired |-> {}], Implied(m), 1)
+      s == ForcedBranch(W, nm, imp.r, m, newly)
+  IN [r |-> s.r, fired |-> imp.fired \cup s.fired]
+
 (* ----- queue release (IndepQueueManager.release_tasks / LimitedTaskQueue.release) *)
 (* qseq: Seq(id) in FIFO order; nActive: active members now; held: set of held ids *)
 RECURSIVE QRel(_, _, _, _, _)
